@@ -550,3 +550,32 @@ func EvalInt(t string, model map[string]string) (int64, error) { return evalIntT
 
 // MkStruct builds a struct value from its fields in declaration order.
 func MkStruct(fields ...Value) Value { return structure(append([]value{}, fields...)) }
+
+// Sexpr is a parsed s-expression (exported view).
+type Sexpr struct {
+	Atom   string
+	List   []*Sexpr
+	IsList bool
+}
+
+// ParseSexprPublic parses one s-expression.
+func ParseSexprPublic(src string) *Sexpr {
+	var conv func(s *sexpr) *Sexpr
+	conv = func(s *sexpr) *Sexpr {
+		r := &Sexpr{Atom: s.atom, IsList: s.isL}
+		for _, e := range s.list {
+			r.List = append(r.List, conv(e))
+		}
+		return r
+	}
+	return conv(parseSexpr(src))
+}
+
+// MkArray builds an array value.
+func MkArray(elems ...Value) Value { return array(append([]value{}, elems...)) }
+
+// NilError is the nil error interface value.
+func NilError() Value { return iface{} }
+
+// MkTuple builds a multi-result value.
+func MkTuple(elems ...Value) Value { return tuple(append([]value{}, elems...)) }
